@@ -83,6 +83,8 @@ def explore(ctx, rep, cases, label):
                     L.has_uncached(c, t, False), L.has_uncached(c, t, True), ", late traversal" if nt else ""))
         else:
             rep.count("overrides: none")
+        for key in L.sharing_profile(c, ex):
+            rep.count(key)
         for d in ex:
             for what, observed, expected, sig in L.oracle_c06(c, d, ex):
                 rep.fail(what, c, observed=observed, expected=expected, sig=sig)
